@@ -74,8 +74,8 @@ type topoState struct {
 	// reconnTicker: the session retries nodes it holds for down (ReconnectInterval > 0): a
 	// node reported down that is in fact reachable comes back on its own
 	reconnTicker bool
-	dupFor      string
-	compares    int
+	dupFor       string
+	compares     int
 	// splitAddrs: nodes have distinct rpc and node-to-node addresses
 	splitAddrs bool
 }
